@@ -84,7 +84,7 @@ def run(m, chk):
         "Static discharge of structural clauses of C18: normalize does not obtain the upper limit as x * (1/x) (rule R: IEEE arithmetic does not round that to 1 for every x, x / x does); shift / scale / normalize commit once, "
         "last (through the validated setter); generator results depend on degree, npts and cls / weights. Spacing, simplicity of interior knots and invariance of evaluation under reparametrisation are not decided."
     )
-    chk.decides = ["TOL-ABSOLUTE (knot identity is decided on differences, never with a tolerance relative to the knots)", "E8 (exact knots stay exact under shift / scale / normalize and in the generators with cls = Fraction)", "R (no multiplication by a reciprocal of an own element)", "COMMIT-LAST(shift, scale, normalize)", "DEP-MAY of the generators", 'NORMALIZE-PATHS', 'SIBLING-CAST (weight() converts no weight to the class of another weight)']
+    chk.decides = ["NP-SCALAR (elements of numpy arrays are converted with int() / float() before cls(...) sees them)", "TOL-ABSOLUTE (knot identity is decided on differences, never with a tolerance relative to the knots)", "E8 (exact knots stay exact under shift / scale / normalize and in the generators with cls = Fraction)", "R (no multiplication by a reciprocal of an own element)", "COMMIT-LAST(shift, scale, normalize)", "DEP-MAY of the generators", 'NORMALIZE-PATHS', 'SIBLING-CAST (weight() converts no weight to the class of another weight)']
     chk.not_decided = ["equal spacing / simple interior knots", "N_i over s*U+a at s*u+a equals N_i over U at u"]
     q = KV + "normalize"
     ctx = r.root(q)
@@ -129,6 +129,9 @@ def run(m, chk):
         chk.ob("NORMALIZED", f"{G + name}: the result is normalised on every path", ok, loc=r.loc(c2, c2.fi.node), detail="" if ok else f"{G + name}: a vector is returned without normalize(): the interval is not [0, 1]", func=G + name, construct="generator skips normalize")
     # exact knots stay exact: no float introduced by the library reaches the vector a generator returns (cls = Fraction) or the
     # state shift / scale / normalize write (number-kind analysis of the exact context, as in C16)
+    from .extra import np_scalar
+
+    np_scalar(r, chk, [G + f_ for f_ in ("bezier", "integer", "uniform", "random", "weight")], floor=3)
     from .c16 import e8_sinks
 
     ne8 = e8_sinks(chk, m.exact(), [KV + "shift", KV + "scale", KV + "normalize", G + "bezier", G + "integer", G + "uniform", G + "random", G + "weight"])
